@@ -1,5 +1,5 @@
 #!/bin/bash
-cd /verif
+cd "$(dirname "$(readlink -f "$0")")/.."
 for id in "$@"; do
   s=$(date +%s)
   nice -n 10 ./check $id --tier thorough --workers ${WORKERS:-8} > /tmp/thorough_${id}.log 2>&1; rc=$?
